@@ -31,6 +31,8 @@ func init() {
 			{"C11-R4", "authenticate before serving", func(c *Ctx) { c05r3(c); c.floors[c.curRule] = 10 }},
 			{"C11-R5", "verified identity provenance", c11r5},
 			{"C11-R6", "verified identity is non-nil where used", c11r6},
+			{"C11-R7", "authorization answers are not memoised under a key that omits an input", c11r7},
+			{"C11-R8", "the CA-only exemption and the generator decide on the same field", c11r8},
 		},
 	})
 }
@@ -518,4 +520,116 @@ func c11r6(c *Ctx) {
 	}
 	c.Check("VerifiedIdentity dereferences found", token.NoPos, n >= 4, "fewer dereference sites than confirmed by hand")
 	c.Floor(5)
+}
+
+
+// C11-R7: on the path that decides whether a proxy may receive a secret (SDS generation, ReferenceGrant checks while
+// gateways are merged) no function memoises a result in a map that outlives the call under a key that leaves out one
+// of the inputs the result was computed from (e.g. the requesting namespace): the answer computed for one proxy would
+// be handed to another. The detector is exercised on every run against a known memo elsewhere (positive control).
+func c11r7(c *Ctx) {
+	p := c.P
+	entries := []*ssa.Function{
+		p.Func(pkgXds, "SecretGen", "Generate"),
+		p.Func(pkgModel, "PushContext", "SecretAllowed"),
+		p.Func(pkgModel, "", "mergeGateways"),
+	}
+	reach := p.CG().Reach(entries, func(f *ssa.Function) bool { return !strings.HasPrefix(funcPkgPath(f), istioMod+"/pilot/pkg/") })
+	var fns []*ssa.Function
+	for f := range reach {
+		fns = append(fns, f)
+	}
+	sort.Slice(fns, func(i, j int) bool { return fnKey(fns[i]) < fnKey(fns[j]) })
+	n := 0
+	for _, fn := range fns {
+		if strings.HasSuffix(p.Fset.Position(fn.Pos()).Filename, "_test.go") {
+			continue
+		}
+		for _, m := range memoSites(p, fn) {
+			n++
+			c.Check("memo key covers what the value was computed from: "+stableFnName(fn), m.lookup.Pos(), len(m.missing) == 0,
+				"a result on the secret-authorization path is stored in a map and reused under a key that does not include "+strings.Join(m.missing, ", ")+": the answer computed for one requester (e.g. a gateway namespace holding a ReferenceGrant) is returned for another that has none, and SDS hands it the private key")
+		}
+	}
+	c.Stat("authorization_path_functions", len(fns))
+	c.Check("authorization path functions examined", token.NoPos, len(fns) >= 20, "the secret-authorization call graph came out too small")
+	// positive control on every run: a built-in fixture with two incomplete and two complete memos
+	why := memoSelfTest()
+	c.Check("positive control: the memo detector reports the incomplete keys of its fixture and not the complete ones", token.NoPos, why == "", why)
+	c.Floor(2)
+}
+
+
+// C11-R8: a "-cacert" resource is public CA material and is exempt from the RBAC check, while the generator decides
+// from the same suffix whether to emit only the CA certificate or the full key pair. Both decisions - every
+// strings.HasSuffix(x, SdsCaSuffix) in the SDS generator - must be made on the same field of the parsed resource;
+// otherwise a name can be crafted that is exempted as "CA only" by one test and served with its private key by the other.
+func c11r8(c *Ctx) {
+	p := c.P
+	n := 0
+	fields := map[string]int{}
+	type site struct {
+		pos   token.Pos
+		field string
+		fn    string
+	}
+	var sites []site
+	for _, fn := range p.AllFuncs {
+		if funcPkgPath(fn) != istioMod+"/"+pkgXds || strings.HasSuffix(p.Fset.Position(fn.Pos()).Filename, "_test.go") {
+			continue
+		}
+		eachInstr(fn, func(ins ssa.Instruction) {
+			call, ok := ins.(*ssa.Call)
+			if !ok {
+				return
+			}
+			o := calleeObj(ins)
+			if o == nil || o.Pkg() == nil || o.Pkg().Path() != "strings" || o.Name() != "HasSuffix" || len(call.Call.Args) != 2 {
+				return
+			}
+			if sfx, ok := constString(call.Call.Args[1]); !ok || sfx != "-cacert" {
+				return
+			}
+			fv := fieldOfLoad(call.Call.Args[0])
+			name := "<not a field>"
+			if fv != nil {
+				name = fv.Name()
+				if nt, ok := derefNamed(ownerTypeOfField(call.Call.Args[0])); ok {
+					name = nt.Obj().Name() + "." + name
+				}
+			}
+			if !strings.HasPrefix(name, "SecretResource.") && fv != nil {
+				return // a test on some other key type (cache invalidation keys), not on the parsed SDS resource
+			}
+			n++
+			fields[name]++
+			sites = append(sites, site{call.Pos(), name, stableFnName(fn)})
+		})
+	}
+	c.Check("CA-only suffix tests found in the SDS generator", token.NoPos, n >= 2, "fewer tests of the -cacert suffix than confirmed by hand (authorization filter, generate)")
+	// the majority field is the reference
+	ref, best := "", 0
+	for f, k := range fields {
+		if k > best || (k == best && f < ref) {
+			ref, best = f, k
+		}
+	}
+	for _, s := range sites {
+		c.Check("CA-only decision made on "+ref+": "+s.fn, s.pos, s.field == ref,
+			"this test for the -cacert suffix looks at "+s.field+" while the other tests in the SDS generator look at "+ref+": a resource name can end in -cacert in one of them and not in the other, so the request is exempted from authorization as public CA material and still answered with the private key")
+	}
+	c.Floor(3)
+}
+
+// ownerTypeOfField: the struct type a loaded field belongs to.
+func ownerTypeOfField(v ssa.Value) types.Type {
+	switch x := v.(type) {
+	case *ssa.UnOp:
+		if fa, ok := x.X.(*ssa.FieldAddr); ok {
+			return fa.X.Type()
+		}
+	case *ssa.Field:
+		return x.X.Type()
+	}
+	return nil
 }
